@@ -320,8 +320,23 @@ def normalise(case):
     return case
 
 
+def warmup():
+    """compile / load the jitted entry point once; the numba cache directory is shared with concurrently running
+    checks, so a cache race (OSError) is retried instead of aborting the run"""
+    import time
+    for attempt in range(6):
+        try:
+            run_impl(dict(n=1, M=[[Fraction(2)]], q=[Fraction(-1)], d=None, max_iter=10))
+            run_impl(dict(n=1, M=[[Fraction(2)]], q=[Fraction(-1)], d=[Fraction(1)], max_iter=10))
+            return
+        except OSError:
+            time.sleep(1.0 + attempt)
+    raise RuntimeError("numba cache unusable after retries")
+
+
 def run(ctx):
     thorough = ctx.tier == "thorough"
+    warmup()
     ctx.proofs()
     N = 2600 if thorough else 520
     NR = 500 if thorough else 100
